@@ -586,6 +586,10 @@ func init() {
 			}
 			if emitLine {
 				o.emit(line, fmt.Sprintf("ok | %d", got), fmt.Sprintf("cks:%s:%s", s.name, lenClass(len(data))), true)
+				if len(data) <= 8192 {
+					// the Calc body as translated into GoIR from the source
+					o.emit("irc "+s.name+" "+hexOf(data), fmt.Sprintf("ok | %d", got), "", false)
+				}
 			}
 			want := refAlg(s.name, data)
 			if got != want || got2 != want {
